@@ -661,7 +661,7 @@ def st_ops(tier):
     set_col = st.tuples(st.just("set"), st.just(2), path, idx, st.fixed_dictionaries({"col": st_raw_column()}))
     get = st.tuples(st.just("get"), level, path, idx, missing)
     delete = st.tuples(st.just("del"), level, path, idx, missing)
-    eq = st.tuples(st.just("eq"), level, path, st.integers(0, 2))
+    eq = st.tuples(st.just("eq"), level, path, st.integers(0, 3))
     roundtrip = st.tuples(st.just("roundtrip"), st.sampled_from([0, 1]))
     op = st.one_of(
         set_block, set_cat, set_col, set_col,
@@ -750,14 +750,39 @@ def _build_from_model(fl, node, level):
     return fl.make_category(node)
 
 
-def _prime(container, level):
-    """Serialise a binary container once so that the parameters of its encodings are resolved."""
-    from biotite.file import SerializationError
+def _mask_only_variant(fl, node, level):
+    """A real container equal to the model except that the first row of one column is masked
+    while its data array is unchanged (so only the mask tells them apart).  None if impossible."""
+    import numpy as np
 
-    try:
-        container.serialize()
-    except SerializationError:
-        pass  # category without columns
+    fresh = _build_from_model(fl, node, level)
+    if level == 2:
+        cats = [(fresh, node)]
+    elif level == 1:
+        cats = [(fresh[k], c) for k, c in node.items()]
+    else:
+        cats = [(fresh[bk][ck], c) for bk, b in node.items() for ck, c in b.items()]
+    for real_cat, cat in cats:
+        for k, p in cat.cols.items():
+            data, mask = fl.model_column_view(p)
+            if fl.name == "cif" and mask[0] != 0:
+                continue  # the data itself is '.'/'?'
+            mask = [0] * len(data) if mask is None else list(mask)
+            mask[0] = 1 if mask[0] == 0 else 0
+            real_cat[k] = fl.classes[3](list(data), np.array(mask, dtype=np.uint8))
+            return fresh
+    return None
+
+
+def _prime(container, level):
+    """Serialise every column of a binary container once so that the parameters of its encodings
+    are resolved (column by column: a category without columns cannot be serialised as a whole)."""
+    if level == 2:
+        for column in container.values():
+            column.serialize()
+    else:
+        for child in container.values():
+            _prime(child, level + 1)
 
 
 def _perturb(fl, node, level, how):
@@ -954,14 +979,18 @@ def run_history(case, fl):
                     o.exclude(F3)
                 o.check(cont == fresh, "equality", f"{where}: container != freshly built equal container")
                 o.check(not (cont != fresh), "equality", f"{where}: != is True for equal containers")
-                other = _perturb(fl, node, level, op[3] % 3)
-                if other is not None:
-                    diff = _build_from_model(fl, other, level)
+                how = op[3] % 4
+                if how == 3:
+                    diff = _mask_only_variant(fl, node, level)
+                else:
+                    other = _perturb(fl, node, level, how)
+                    diff = None if other is None else _build_from_model(fl, other, level)
+                if diff is not None:
                     if fl.name == "bcif" and case.get("prime_fresh", True):
                         _prime(diff, level)
-                    o.check(not (cont == diff), "equality", f"{where}: == is True for a different container (perturbation {op[3] % 3})")
+                    o.check(not (cont == diff), "equality", f"{where}: == is True for a different container (perturbation {how})")
                     o.check(cont != diff, "equality", f"{where}: != is False for a different container")
-                    o.label("eq_with_different")
+                    o.label("eq_with_different", f"eq_perturbation={how}")
                 o.check(not (cont == 5), "equality", f"{where}: == 5")
             elif name == "get_default":
                 o.check(cont.get(MISSING_KEY, sentinel) is sentinel, "missing_key_raises_keyerror", f"{where}: get() with default")
